@@ -274,6 +274,24 @@ class InlinePass(ir.passes.InPlacePass):
         output_values = [value_map[output] for output in function.outputs]
         return nodes, output_values  # type: ignore[return-value]
 
+    def _collect_used_names(self, graph: ir.Graph) -> None:
+        """Record the names of all values defined in the graph and its subgraphs."""
+        for value in (*graph.inputs, *graph.initializers.values()):
+            if value.name is not None:
+                self._used_value_names.add(value.name)
+        for node in graph:
+            for output in node.outputs:
+                if output.name is not None:
+                    self._used_value_names.add(output.name)
+            for attr in node.attributes.values():
+                if attr.is_ref():
+                    continue
+                if attr.type == ir.AttributeType.GRAPH:
+                    self._collect_used_names(attr.as_graph())
+                elif attr.type == ir.AttributeType.GRAPHS:
+                    for subgraph in attr.as_graphs():
+                        self._collect_used_names(subgraph)
+
     def _inline_calls_in(
         self, graph: ir.Graph
     ) -> tuple[dict[ir.OperatorIdentifier, int], int]:
@@ -305,6 +323,16 @@ class InlinePass(ir.passes.InPlacePass):
             for output in node.outputs:
                 if output.name is not None:
                     self._used_value_names.add(output.name)
+            # Names defined inside the subgraphs of this node are in use too: an inlined
+            # value that took one of them would be redefined (shadowed) there.
+            for attr in node.attributes.values():
+                if attr.is_ref():
+                    continue
+                if attr.type == ir.AttributeType.GRAPH:
+                    self._collect_used_names(attr.as_graph())
+                elif attr.type == ir.AttributeType.GRAPHS:
+                    for subgraph in attr.as_graphs():
+                        self._collect_used_names(subgraph)
 
         next_id: dict[ir.OperatorIdentifier, int] = defaultdict(int)
         inlined_count = 0
